@@ -209,6 +209,7 @@ class Gen:
         self.sanitise()
         spec = {'events': self.events, 'procs': self.procs, 'roots': roots, 'chains': self.chains,
                 'callbacks': [ev for ev in self.events if rng.random() < 0.5],
+                'defusers': [ev for ev in self.plain_events if rng.random() < 0.2],
                 'initial_time': rng.choice([0, 0, 0, 4]), 'until': None}
         if until == 'time':
             spec['until'] = {'time': rng.choice([1, 2, 3, 5, 8, 40]) + 0.5 + 2.0 ** -22}
@@ -240,6 +241,10 @@ class World:
                 lambda event, name=name: self.callback_log.append((name, env.now)))
             self.events[name].callbacks.append(
                 lambda event, name=name: self.callback_log.append((name + '#2', env.now)))
+        for name in self.spec.get('defusers', ()):
+            # the documented idiom: a callback of the event itself marks its failure as handled
+            self.events[name].callbacks.append(
+                lambda event: setattr(event, 'defused', True) if not event.ok else None)
         for source, target in self.spec.get('chains', ()):
             self.events[source].callbacks.append(self.events[target].trigger)
         for name in self.spec['roots']:
